@@ -297,7 +297,10 @@ func parseUseDependencies(input []byte) ([]UseDependency, error) {
 			}
 		}
 		flag := string(cur.Slice[start:cur.Pos])
-		if c == '=' || c == '?' {
+		// PMS writes the default before the suffix: flag(+)= ; the reverse order, flag=(+),
+		// is also accepted
+		suffixFirst := c == '=' || c == '?'
+		if suffixFirst {
 			suffix = c
 			c = cur.Take()
 		}
@@ -312,6 +315,10 @@ func parseUseDependencies(input []byte) ([]UseDependency, error) {
 				return nil, fmt.Errorf("unknown USE-default character %c", c)
 			}
 			cur.Pos++
+			c = cur.Take()
+		}
+		if !suffixFirst && (c == '=' || c == '?') {
+			suffix = c
 			c = cur.Take()
 		}
 		tp, ok := prefixSuffixMap[prefix][suffix]
